@@ -66,6 +66,7 @@ def draw_fields(src, m, extra=()):
 def run_case(ctx):
     src = ctx.src
     common.draw_env(ctx)
+    common.prelude(ctx)
     m = world.gen_world(src, force_2d=True, special_ok=False, min_cells0=4)
     path, _ = common.materialise(ctx, m)
     req, outnames = draw_fields(src, m)
